@@ -24,6 +24,7 @@ MUTANTS = {
     "NoWakeAllOnOpen": "C14",
     "SentinelKept": "C15", "NoDesignatedCheck": "C15", "OpenAllAtOnce": "C15", "DisabledBlocks": "C15",
     "NoGoalClearOnExit": "C16", "NoNotifyAllOnExit": "C16",
+    "SentinelEager": "C13", "OpenBeforeStop": "C11",
 }
 SLOW_MUTANTS = {"NoWakeAllOnOpen"}          # liveness: thorough tier only
 
@@ -33,6 +34,7 @@ class SRun(hc.Run):
 
     def __init__(self, plan, name, **kw):
         self.timeout = kw.pop("timeout", 240)
+        self.driver = kw.pop("driver", "gcdrive")
         kw.setdefault("sems", "0,0,0,0,2")
         kw.setdefault("heap", 16)
         super().__init__(plan, name=name, **kw)
@@ -40,6 +42,13 @@ class SRun(hc.Run):
     @property
     def label(self):
         return "%s-%s-w%d" % (self.plan, self.name, self.workers)
+
+    def argv(self, exe, out):
+        if self.driver == "gcdrive":
+            return super().argv(exe, out)
+        return [exe, "--plan", self.plan, "--variant", str(hc.variant_of(self.plan)), "--heap",
+                str(self.heap), "--workers", str(self.workers), "--mutators", str(self.mutators),
+                "--programs", str(self.programs), "--ops", str(self.ops), "--out", out] + self.extra
 
 
 def matrix(tier, focus):
@@ -49,50 +58,80 @@ def matrix(tier, focus):
         extra = ["--weak-chains", "3"]
         if tier == "quick":
             for i, p in enumerate(GC_PLANS):
-                runs.append(SRun(p, "weak", workers=1 + i % 4, mutators=1 + i % 2, programs=4,
+                runs.append(SRun(p, "weak", driver="scheddrive", workers=1 + i % 4, mutators=1 + i % 2, programs=4,
                                  ops=90, extra=extra, seed_off=i))
         else:
             for p in GC_PLANS:
                 for j, w in enumerate([1, 2, 4, 8]):
-                    runs.append(SRun(p, "weak", workers=w, mutators=1 + j % 3, programs=15, ops=150,
+                    runs.append(SRun(p, "weak", driver="scheddrive", workers=w, mutators=1 + j % 3, programs=15, ops=150,
                                      extra=["--weak-chains", str(1 + j)], seed_off=j))
         return runs
     if focus == "fork":
         if tier == "quick":
             for i, p in enumerate(["SemiSpace", "GenImmix", "MarkSweep", "Immix", "ConcurrentImmix",
                                    "MarkCompact"]):
-                runs.append(SRun(p, "fork", workers=1 + i % 4, mutators=1, programs=2, ops=60,
+                runs.append(SRun(p, "fork", driver="scheddrive", workers=1 + i % 4, mutators=1, programs=2, ops=60,
                                  extra=["--fork-cycles", "6"], seed_off=i))
         else:
             for p in PLANS:
                 for j, w in enumerate([1, 2, 4, 8]):
-                    runs.append(SRun(p, "fork", workers=w, mutators=1 + j % 2, programs=3, ops=80,
+                    runs.append(SRun(p, "fork", driver="scheddrive", workers=w, mutators=1 + j % 2, programs=3, ops=80,
                                      extra=["--fork-cycles", "40" if p != "NoGC" else "10"],
                                      seed_off=j, timeout=600))
-            runs.append(SRun("SemiSpace", "shutdown", workers=3, programs=2, ops=60,
+            runs.append(SRun("SemiSpace", "shutdown", driver="scheddrive", workers=3, programs=2, ops=60,
                              extra=["--fork-cycles", "3", "--shutdown"], seed_off=9))
         return runs
     if tier == "quick":
+        # scheddrive: same kind of random programs as gcdrive but no heap walk / allocation events,
+        # so the traces contain (almost) only scheduler events
         for i, p in enumerate(PLANS):
-            runs.append(SRun(p, "a", workers=1 + i % 4, mutators=1 + i % 3, programs=5, ops=110,
-                             seed_off=i))
+            runs.append(SRun(p, "a", driver="scheddrive", workers=1 + i % 4, mutators=1 + i % 3,
+                             programs=3, ops=70, seed_off=i))
             if p != "NoGC":
-                runs.append(SRun(p, "b", workers=1 + (i + 2) % 4, mutators=2, programs=4, ops=110,
-                                 heap=8, seed_off=20 + i, extra=["--nobig"]))
+                runs.append(SRun(p, "b", driver="scheddrive", workers=1 + (i + 2) % 4, mutators=2,
+                                 programs=2, ops=70, heap=8, seed_off=20 + i))
     else:
         for p in PLANS:
             for j, w in enumerate([1, 2, 4, 8]):
-                runs.append(SRun(p, "a", workers=w, mutators=1 + j % 3, programs=20, ops=180,
-                                 seed_off=j))
+                runs.append(SRun(p, "a", driver="scheddrive", workers=w, mutators=1 + j % 3,
+                                 programs=12, ops=150, seed_off=j))
                 if p != "NoGC":
-                    runs.append(SRun(p, "small", workers=w, mutators=2, programs=15, ops=200, heap=6,
-                                     seed_off=10 + j, extra=["--nobig"]))
+                    runs.append(SRun(p, "small", driver="scheddrive", workers=w, mutators=2,
+                                     programs=10, ops=150, heap=6, seed_off=10 + j))
             if p != "NoGC":
-                runs.append(SRun(p, "stress", workers=3, programs=10, ops=150,
+                # the whole-system driver too (LOS, pinning roots, bind/destroy of mutators, walker)
+                runs.append(SRun(p, "gcd", workers=3, mutators=2, programs=8, ops=150, seed_off=29,
+                                 extra=["--bind"]))
+                runs.append(SRun(p, "stress", workers=3, programs=6, ops=120,
                                  opts="stress_factor=131072", seed_off=30))
-                runs.append(SRun(p, "rel", workers=4, programs=20, ops=180, seed_off=31,
-                                 release=True))
+                runs.append(SRun(p, "rel", driver="scheddrive", workers=4, programs=12, ops=150,
+                                 seed_off=31, release=True))
     return runs
+
+
+CYCLE = ("PollEmpty", "Park", "LastParkedEnter", "LastParked", "Notify", "Unpark")
+
+
+def compact(lines):
+    """Drop exact repetitions of the busy-wait cycle of a last parked worker (PollEmpty, Park,
+    LastParkedEnter, LastParked(WakeAll), Notify, Unpark - six lines identical to the six before
+    them, nothing in between): while the worker it woke has not yet re-acquired the monitor the
+    real scheduler repeats this cycle thousands of times. The replay is deterministic and the
+    cycle leaves the specification state unchanged after its first execution, so validating one
+    repetition validates all. Returns (lines, dropped_cycles)."""
+    def is_cycle(i):
+        if i + 6 > len(lines):
+            return False
+        return all(lines[i + k].startswith('{"ev":"%s"' % CYCLE[k]) for k in range(6))
+    out, i, dropped = [], 0, 0
+    while i < len(lines):
+        if is_cycle(i) and len(out) >= 6 and out[-6:] == lines[i:i + 6]:
+            i += 6
+            dropped += 1
+            continue
+        out.append(lines[i])
+        i += 1
+    return out, dropped
 
 
 def make_keyfn(run, prefixes):
@@ -106,10 +145,10 @@ def make_keyfn(run, prefixes):
     return keyfn
 
 
-def execute(ctx, runs, prefixes, par_run=5, par_tlc=5):
+def execute(ctx, runs, prefixes, par_run=6, par_tlc=6):
     exes = {}
-    for fs, rel in sorted({(r.feats, r.release) for r in runs}):
-        exes[(fs, rel)] = ctx.build("gcdrive", features=list(fs), release=rel)
+    for drv, fs, rel in sorted({(r.driver, r.feats, r.release) for r in runs}):
+        exes[(drv, fs, rel)] = ctx.build(drv, features=list(fs), release=rel)
     outdir = os.path.join(ctx.work, "traces")
     os.makedirs(outdir, exist_ok=True)
 
@@ -117,7 +156,7 @@ def execute(ctx, runs, prefixes, par_run=5, par_tlc=5):
         out = os.path.join(outdir, r.label + ".ndjson")
         if os.path.exists(out):
             os.remove(out)
-        rc, o = ctx.run(r.argv(exes[(r.feats, r.release)], out), timeout=r.timeout,
+        rc, o = ctx.run(r.argv(exes[(r.driver, r.feats, r.release)], out), timeout=r.timeout,
                         env={"VERIF_SEED": str(ctx.seed * 100 + r.seed_off)})
         if not os.path.exists(out):
             raise vf.ToolError("gcdrive produced no trace for %s: rc=%s %s" % (r.label, rc, o[-1500:]))
@@ -133,17 +172,18 @@ def execute(ctx, runs, prefixes, par_run=5, par_tlc=5):
             else:
                 lines.append(json.dumps({"ev": "Crash", "msg": "process died rc=%s %s" % (rc, tail),
                                          "loc": "process", "th": -1}))
+        lines, dropped = compact(lines)
         with open(out, "w") as f:
             f.write("\n".join(lines) + "\n")
-        return r, out
+        return r, out, dropped
 
     with cf.ThreadPoolExecutor(par_run) as ex:
         results = list(ex.map(do_run, runs))
 
-    stats = {"runs": 0, "events": 0}
+    stats = {"runs": 0, "events": 0, "busy_wait_cycles_compacted": sum(x[2] for x in results)}
 
     def do_val(item):
-        r, out = item
+        r, out, _ = item
         res = ctx.tlc_trace("Trace_Scheduler.tla", "Trace_Scheduler.cfg", out, spec_dir=SD,
                             name="s_" + r.label, keyfn=make_keyfn(r, prefixes), replay_whole=True,
                             what="scheduler trace of %s rejected by Trace_Scheduler" % r.label,
